@@ -368,6 +368,13 @@ struct C02World: World {
             for (int i = 0; i < 3; i++) ctx.require(std::fabs(jc[static_cast<size_t>(i)] - want) <= 1e-12, "C02|jaccard|exact-mode-ratio", "got " + hexd(jc[static_cast<size_t>(i)]) + " want " + hexd(want));
             bool eq = ds::theta_jaccard_similarity_alloc<A>::exactly_equal(*sl.sk, *sb.sk, seed);
             ctx.require(eq == (a.s == b.s && a.empty == b.empty), "C02|jaccard|exactly_equal", "");
+            // similarity_test / dissimilarity_test against the exact ratio: "similar" means lower bound >= threshold, "dissimilar" upper bound <= threshold;
+            // in exact mode both bounds are the ratio, so at threshold == ratio both are true, just above it only dissimilar, just below only similar
+            { typedef ds::theta_jaccard_similarity_alloc<A> J; const double up = std::min(1.0, want + 1e-6), dn = std::max(0.0, want - 1e-6);
+              ctx.require(J::similarity_test(*sl.sk, *sb.sk, want, seed), "C02|jaccard|similarity_test-at-the-exact-ratio", hexd(want));
+              ctx.require(J::dissimilarity_test(*sl.sk, *sb.sk, want, seed), "C02|jaccard|dissimilarity_test-at-the-exact-ratio", hexd(want));
+              if (up > want) ctx.require(!J::similarity_test(*sl.sk, *sb.sk, up, seed), "C02|jaccard|similarity_test-above-the-ratio", hexd(want));
+              if (dn < want) ctx.require(!J::dissimilarity_test(*sl.sk, *sb.sk, dn, seed), "C02|jaccard|dissimilarity_test-below-the-ratio", hexd(want)); }
             ctx.probe("jaccard_exact");
           }
           break;
